@@ -1,13 +1,15 @@
 """C10 - DIMACS reader and input validators describe the file faithfully."""
 from lib import engine
 from lib.core import tier
-from units import k24_line
+from units import k24_line, k25_predicates
 
 LEVEL = "other"
 EXPLANATION = (
     "PROVED by CBMC (DFCC, loop-free, every 1024-byte buffer satisfying the fgets contract, ghost index): the "
     "line-normalisation step of read_dimacs_from_file preserves the whole content of the line and removes only a "
-    "trailing newline (K24).  BOUNDED stand-in for the rest (K25): the real reader is run through fmemopen on "
+    "trailing newline (K24); has_loops and has_non_positive_weights, extracted with the Boost.Graph edge range bound to "
+    "edge ordinals, return true exactly when some edge is a self-loop / has weight <= 0 (loop contracts with a ghost "
+    "edge, unbounded in the number of edges).  BOUNDED stand-in for the rest (K25): the real reader is run through fmemopen on "
     "every text of a grammar enumerator (declared vertices <=4, <=3/4 edge lines over endpoints incl. an "
     "undeclared vertex, e/a lines, omitted/integer/decimal/negative/zero weights, comments in every slot, with "
     "and without final newline) and compared field by field; the three predicates are compared with their "
@@ -15,7 +17,7 @@ EXPLANATION = (
 
 
 def run(rep):
-    engine.run_units(rep, k24_line.units(tier()))
+    engine.run_units(rep, k24_line.units(tier()) + k25_predicates.units(tier()))
     engine.run_native(rep, "e3_dimacs",
                       functions={"read_dimacs_from_file": "bounded(grammar enumerator)", "has_loops": "bounded(all multigraphs n<=4,m<=4/5)",
                                  "has_multiple_edges": "bounded(loop-free multigraphs n<=4,m<=4/5)",
